@@ -140,7 +140,7 @@ class HermesServer:
         self._sock: SockServer | None = None
         if (
             config["hermes"]["cli_socket"]["path"] is not None
-            or config["hermes"]["cli_socket"]["dont_manage_sockfile"] is not None
+            or config["hermes"]["cli_socket"]["dont_manage_sockfile"]
         ):
             self._sock = SockServer(
                 path=config["hermes"]["cli_socket"]["path"],
